@@ -55,4 +55,34 @@ Proof. induction Bs as [|B t IH]; cbn [mix_grad mix_hess_half].
     rewrite (mv_add_m nv (fun a c => b_hess_half nv B v a c + b_hess_half nv B v a c)
                          (fun a c => mix_hess_half nv t v a c + mix_hess_half nv t v a c) h al).
     ring. Qed.
+
+(* consistency of the two models: for equal outcome counts the sum over the blocks IS the flat squared-error model *)
+Lemma sumn_fold n (f : nat -> R) : forall s, fold_right (fun j acc => f j + acc) 0 (seq s n) = sumn n (fun i => f (s + i)%nat).
+Proof. induction n as [|n IH]; intros s; [reflexivity|].
+  rewrite seq_S, fold_right_app. cbn [fold_right sumn].
+  assert (G : forall l a, fold_right (fun j acc => f j + acc) a l = fold_right (fun j acc => f j + acc) 0 l + a).
+  { induction l as [|x l IHl]; intros a; cbn; [ring|]. rewrite IHl. ring. }
+  rewrite G, IH. ring. Qed.
+Lemma block_value ns m nv (W : @wts R) (A : mat) (b q v : vec) j : (j < ns)%nat ->
+  b_value nv (block_of m W A b q j) v
+  = wterm m W j (blk m j (vsub (pv nv A b v) q)) (blk m j (vsub (pv nv A b v) q)).
+Proof. intros Hj. unfold b_value, se_value, se_value_at. cbn [sumn b_m b_A b_b b_q block_of].
+  replace (c0 R + wterm m (b_wts (block_of m W A b q j)) 0
+             (blk m 0 (vsub (pv nv (shiftm (j * m) A) (shiftv (j * m) b) v) (shiftv (j * m) q)))
+             (blk m 0 (vsub (pv nv (shiftm (j * m) A) (shiftv (j * m) b) v) (shiftv (j * m) q))))
+    with (wterm m (b_wts (block_of m W A b q j)) 0
+             (blk m 0 (vsub (pv nv (shiftm (j * m) A) (shiftv (j * m) b) v) (shiftv (j * m) q)))
+             (blk m 0 (vsub (pv nv (shiftm (j * m) A) (shiftv (j * m) b) v) (shiftv (j * m) q)))) by ring.
+  unfold b_wts, block_of. cbn [b_W]. destruct W as [w|]; reflexivity. Qed.
+Lemma mix_equal_blocks ns m nv (W : @wts R) (A : mat) (b q v : vec) :
+  mix_value nv (equal_blocks ns m W A b q) v = se_value ns m nv W A b q v.
+Proof. unfold equal_blocks, se_value, se_value_at.
+  set (f := fun j => wterm m W j (blk m j (vsub (pv nv A b v) q)) (blk m j (vsub (pv nv A b v) q))).
+  transitivity (fold_right (fun j acc => f j + acc) 0 (seq 0 ns)).
+  - assert (G : forall l, (forall j, In j l -> (j < ns)%nat) ->
+        mix_value nv (map (block_of m W A b q) l) v = fold_right (fun j acc => f j + acc) 0 l).
+    { induction l as [|x l IHl]; intros Hl; cbn [map mix_value fold_right]; [reflexivity|].
+      rewrite IHl by (intros j Hin; apply Hl; now right). rewrite (block_value ns) by (apply Hl; now left). reflexivity. }
+    apply G. intros j Hin. apply in_seq in Hin. lia.
+  - rewrite sumn_fold. apply sumn_ext; intros i _. reflexivity. Qed.
 End Mixed.
